@@ -236,7 +236,13 @@ where
                 debug!(
                     channel_filter_key = %key,
                     "All channels dropped");
-                self_.key_counts.remove(&key);
+                // The notification may be stale: if a new channel for this key was admitted after
+                // the last one closed, the entry now tracks the new channel and must be kept.
+                if let Entry::Occupied(entry) = self_.key_counts.entry(key) {
+                    if entry.get().strong_count() == 0 {
+                        entry.remove();
+                    }
+                }
                 self_.key_counts.compact(0.1);
                 Poll::Ready(())
             }
